@@ -363,7 +363,7 @@ fn real_c07<T: Serialize + DeserializeOwned + PartialEq + Debug>(v: &T, sc: &Sce
         cx.ser_count.get()
     };
     for name in crate::c07::SERIALIZERS {
-        if !sc.wants(name) {
+        if !crate::c07::ser_on(sc, name) {
             continue;
         }
         for fault in faults_ser(sc, n) {
@@ -440,10 +440,11 @@ fn real_c13<T: Serialize + DeserializeOwned + PartialEq + Debug>(v: &T, sc: &Sce
     };
     let runs: Vec<Fault> = if fault == Fault::None { vec![Fault::None] } else { vec![fault, Fault::None] };
     for f in runs {
-        for route in DOC_ROUTES {
-            if !sc.wants(route) {
+        for route in DOC_ROUTES_X {
+            if !route_on(sc, route) {
                 continue;
             }
+            out.stats.inc(&format!("route.{}", route.split(':').next().unwrap_or(route)));
             let cx = Ctx::new(f, verbose);
             let r = catch_unwind(AssertUnwindSafe(|| run_route_real::<T>(route, &text, &cx)));
             out.absorb(&cx);
